@@ -109,12 +109,20 @@ fn byte_offset_of(source: &str, line: u32, col: u32) -> usize {
     if line == 0 {
         return 0;
     }
-    let line_start: usize = source
-        .split('\n')
-        .take((line - 1) as usize)
-        .map(|l| l.len() + 1) // +1 for the '\n'
-        .sum();
-    (line_start + col as usize).min(source.len())
+    let mut line_start = 0;
+    for (idx, text) in source.split('\n').enumerate() {
+        if idx + 1 == line as usize {
+            // `col` counts characters, not bytes.
+            let within: usize = text
+                .chars()
+                .take(col as usize)
+                .map(char::len_utf8)
+                .sum();
+            return line_start + within;
+        }
+        line_start += text.len() + 1; // +1 for the '\n'
+    }
+    source.len()
 }
 
 /// Context information for a failed assertion.
@@ -346,9 +354,15 @@ impl fmt::Display for ErrorReport {
                         error.error_node.line_start,
                         error.error_node.col_start,
                     );
+                    // The annotation must cover at least one whole character.
+                    let min_end = start
+                        + source
+                            .get(start..)
+                            .and_then(|rest| rest.chars().next())
+                            .map_or(1, char::len_utf8);
                     let end =
                         byte_offset_of(source, error.error_node.line_end, error.error_node.col_end)
-                            .max(start + 1);
+                            .max(min_end);
                     #[cfg(assert_struct_verif)]
                     verif_hooks::record_span(start, end);
                     AnnotationKind::Primary
